@@ -9,24 +9,24 @@ func MaskedReduce(t *Dense, retType Dtype, fn maskedReduceFn, axis ...int) inter
 		return fn(t)
 	}
 	ax := axis[0]
-	if ax >= t.Dims() {
+	if ax < 0 || ax >= t.Dims() {
 		return -1
 	}
 	// create object to be used for slicing
 	slices := make([]Slice, t.Dims())
 
-	// calculate shape of tensor to be returned
-	slices[ax] = makeRS(0, 0)
-	tt, _ := t.Slice(slices...)
-	ts := tt.(*Dense)
-	retVal := NewDense(retType, ts.shape) //retVal is array to be returned
+	// calculate shape of tensor to be returned: the shape of t without the reduced axis
+	retShape := make(Shape, 0, t.Dims()-1)
+	for d, s := range t.Shape() {
+		if d != ax {
+			retShape = append(retShape, s)
+		}
+	}
+	retVal := NewDense(retType, retShape) //retVal is array to be returned
 
-	it := NewIterator(retVal.Info())
-
-	// iterate through retVal
-	slices[ax] = makeRS(0, t.shape[ax])
-	for _, err := it.Next(); err == nil; _, err = it.Next() {
-		coord := it.Coord()
+	// iterate through the coordinates of retVal
+	coord := make([]int, len(retShape))
+	for n := retShape.TotalSize(); n > 0; n-- {
 		k := 0
 		for d := range slices {
 			if d != ax {
@@ -36,10 +36,19 @@ func MaskedReduce(t *Dense, retType Dtype, fn maskedReduceFn, axis ...int) inter
 				slices[d] = nil
 			}
 		}
-		tt, _ = t.Slice(slices...)
-		ts = tt.(*Dense)
-		retVal.SetAt(fn(ts), coord...)
+		tt, err := t.Slice(slices...)
+		if err != nil {
+			panic(err)
+		}
+		retVal.SetAt(fn(tt.(*Dense)), coord...)
 
+		// next coordinate, in row-major order
+		for d := len(coord) - 1; d >= 0; d-- {
+			if coord[d]++; coord[d] < retShape[d] {
+				break
+			}
+			coord[d] = 0
+		}
 	}
 	return retVal
 }
